@@ -10,7 +10,9 @@ import lib
 
 SYM = {"a": b"a", "sp": b" ", "tab": b"\t", "nl": b"\n", "sq": b"'", "dq": b'"', "bs": b"\\", "dollar": b"$", "hash": b"#", "tilde": b"~", "star": b"*", "eq": b"=",
        "c01": b"\x01", "del": b"\x7f", "zdot": "ż".encode(), "fffd": "\ufffd".encode(), "xff": b"\xff", "smalltilde": "\u02dc".encode(), "excl": b"!", "semi": b";",
-       "nbsp": "\u00a0".encode(), "ideosp": "\u3000".encode()}
+       "nbsp": "\u00a0".encode(), "ideosp": "\u3000".encode(),
+       "pipe": b"|", "amp": b"&", "lt": b"<", "gt": b">", "lp": b"(", "rp": b")", "bq": b"`", "qm": b"?", "lb": b"[", "rb": b"]",
+       "lbrace": b"{", "rbrace": b"}", "plus": b"+", "pct": b"%"}
 ORDER = sorted(SYM)
 
 
@@ -31,6 +33,10 @@ def bash_decode(lines, workdir):
 
 
 def run_bash(lines, workdir):
+    # files that the patterns ?, ?? and [a] would expand to if they were printed unquoted
+    for n_ in ("a", "aa", "aaa"):
+        if not os.path.exists(os.path.join(workdir, n_)):
+            open(os.path.join(workdir, n_), "w").close()
     sp = os.path.join(workdir, "q.sh")
     with open(sp, "wb") as f:
         for l in lines:
